@@ -134,10 +134,6 @@ func selfTest(c *Ctx, repo, verif string, extra map[string]any) {
 				}
 			}
 			sort.Strings(fresh)
-			if len(fresh) > 4 {
-				fresh = fresh[:4]
-			}
-			r.New = fresh
 			hit := len(fresh) > 0
 			if hit && j.e.Expect != "" {
 				hit = false
@@ -147,6 +143,29 @@ func selfTest(c *Ctx, repo, verif string, extra map[string]any) {
 					}
 				}
 			}
+			// the evidence lists a few of the new keys only (the expected rule first)
+			if len(fresh) > 4 {
+				var head []string
+				for _, k := range fresh {
+					if j.e.Expect != "" && strings.Contains(k, j.e.Expect) && len(head) < 2 {
+						head = append(head, k)
+					}
+				}
+				for _, k := range fresh {
+					if len(head) >= 4 {
+						break
+					}
+					dup := false
+					for _, h := range head {
+						dup = dup || h == k
+					}
+					if !dup {
+						head = append(head, k)
+					}
+				}
+				fresh = head
+			}
+			r.New = fresh
 			switch {
 			case j.benign && len(fresh) == 0:
 				r.Outcome = "silent"
